@@ -9,16 +9,16 @@ K = "Kani 0.68 harnesses compiled into the real crate (cfg(kani) verif_hooks): i
 V = "Verus 0.2026.09.13 on functions extracted mechanically from /repo on every run (rewrite rules with application counts; diffs under evidence/diffs/), contracts spliced from /verif/verus/units"
 
 CHECKS = {
- "C01": dict(tech="Kani inductive-step harnesses on the real rings / zero-copy queues / pool / Uni channels (accept-or-reject, FIFO consume, exactly-once) + Verus on AtomicMove / FullSyncMove extracted for symbolic BUFFER_SIZE (counter arithmetic incl. transient overshoot states, protocol-typed counters, write-before-publish, lock discipline)",
+ "C01": dict(tech="Kani inductive-step harnesses on the real rings / zero-copy queues / pool / Uni channels (accept-or-reject, FIFO consume, exactly-once) + Verus on AtomicMove / FullSyncMove extracted for symbolic BUFFER_SIZE (counter arithmetic incl. transient overshoot states, protocol-typed counters, write-before-publish, lock discipline) + Verus on the crossbeam-backed Uni channel's glue (queue = assumed bounded FIFO)",
              text="Proof, for every sequential history (induction over the ring invariant, every u32 counter origin, every fill level, every payload; BUFFER_SIZE in {2,4,8}, MAX_STREAMS in {1,2}), that an accepted event enters the container once, leaves once through consume with exactly its payload, and that a rejected send hands the payload / un-invoked setter back and changes nothing. Interleavings of concurrent producers/consumers on the lock-free ring are NOT decided.",
-             note="K: concrete const generics; CBMC's sequential model of atomics; crossbeam-backed channel not covered (assumed FIFO). Full-sync kinds: all schedules modulo 'the spin lock excludes' + SC.", ref="DESIGN §3.1, §4 C01"),
+             note="K: concrete const generics; CBMC's sequential model of atomics; the crossbeam queue itself is an ASSUMED bounded FIFO (Kani cannot compile crossbeam), its channel's glue is decided by Verus. Full-sync kinds: all schedules modulo 'the spin lock excludes' + SC.", ref="DESIGN §3.1, §4 C01"),
  "C02": dict(tech="Kani inductive-step harnesses: FIFO order, capacity, pending count on rings, zero-copy queues and Uni channels + Verus ring_atomic / ring_full_sync (symbolic BUFFER_SIZE, every u32 counter value)",
              text="Proof of the sequential FIFO contract: consume yields seq[0]; None iff empty; reject iff all BUFFER_SIZE slots are taken (published + reserved, or pool slots outstanding); pending_items_count == |seq|; never more than BUFFER_SIZE pending. 'Every operation takes effect at one instant' under real concurrency of AtomicMove is NOT decided.",
              note="as C01", ref="DESIGN §3.1, §4 C02"),
- "C03": dict(tech="Kani harnesses on the Arc Multi channels (quick) and the pooled / log Multi channels (thorough): fan-out to exactly the live listeners, same allocation, per-listener FIFO + Verus send_derived of the pooled channels for symbolic MAX_STREAMS / BUFFER_SIZE + Kani/Verus on the mmap log topic (one append, per-listener cursor; A-model: publication only by compare-exchange from the own ticket)",
+ "C03": dict(tech="Kani harnesses on the Arc Multi channels (quick) and the pooled / log Multi channels (thorough): fan-out to exactly the live listeners, same allocation, per-listener FIFO + Verus send_derived of the pooled channels for symbolic MAX_STREAMS / BUFFER_SIZE + Kani/Verus on the mmap log topic (one append, per-listener cursor; A-model: publication only by compare-exchange from the own ticket) + Verus send_derived of the three Arc Multi channels incl. the crossbeam one (symbolic MAX_STREAMS; every raw copy of a pooled handle covered by a reference counted BEFORE the copy exists)",
              text="Proof (sequential, listener set fixed as the statement says) that one accepted send puts exactly one handle to the SAME allocation into the queue of every live listener and of no other, keeps per-listener order, and that the handle count equals the number of listeners; log channel: publish appends one entry, cursors yield entries in log order.",
-             note="K: BUFFER_SIZE 2 (4 thorough), MAX_STREAMS 1 (2 thorough); crossbeam Multi channel not covered; producers racing consumers not decided.", ref="DESIGN §4 C03"),
- "C04": dict(tech="Kani harnesses: empty-to-non-empty send wakes a live parked stream, for every accepting entry point of the 4 Uni + 4 Multi channels; poll_next registers the waker after the consume attempt; Verus: wake fan-outs for symbolic MAX_STREAMS",
+             note="K: BUFFER_SIZE 2 (4 thorough), MAX_STREAMS 1 (2 thorough); V: symbolic sizes, listener queues as assumed FIFO contracts (crossbeam: assumed); producers racing consumers not decided.", ref="DESIGN §4 C03"),
+ "C04": dict(tech="Kani harnesses: empty-to-non-empty send wakes a live parked stream, for every accepting entry point of the 4 Uni + 4 Multi channels; poll_next registers the waker after the consume attempt; a send_with_async completing into a drained channel wakes a parked stream; Verus: wake fan-outs of all five non-log Multi channels and the crossbeam Uni channel for symbolic MAX_STREAMS",
              text="Proof of a NECESSARY sequential condition of 'no lost wake-up': with streams 0..s created and parked and the queue empty, every accepting entry point wakes a live stream (Multi: every live listener), every wake index is < MAX_STREAMS, and poll_next stores the waker before answering Pending (self-wake on waker replacement). The race between the wake decision and the consumer's check/register/park steps is a liveness property over interleavings and is NOT decided.",
              note="necessary condition only; see DESIGN §4 C04 for the residue", ref="DESIGN §4 C04"),
  "C05": dict(tech="Kani harnesses with a drop-counting payload on the real rings, pool, OgreArc/OgreUnique and the Multi channels incl. teardown with buffered events (CBMC's dead-object / double-free checks are obligations)",
@@ -36,34 +36,34 @@ CHECKS = {
  "C09": dict(tech="Kani on the REAL MMapMeta / subscribers over a fake mapping (publish, three subscription kinds, both consume()s) + Verus on the same functions extracted (symbolic log length) + partition lemma",
              text="Proof (sequential) that publish appends exactly one entry and never modifies an earlier one, that new-only / joined / separated subscriptions start at |log| / 0 / (0..t, t) with ONE split point, that a cursor yields a reference to entry #h itself and advances by one iff h is below its dynamic / frozen tail, hence old yields exactly [0,t) and new exactly [t,..). Subscriptions racing publishers that reserved but did not yet publish are NOT decided.",
              note="Kani cannot mmap: the struct is built over a heap block laid out like the mapping; the memmap crate and file system are assumed; fewer than 2^32-2 events", ref="DESIGN §4 C09"),
- "C10": dict(tech="Verus: sync_vacant_and_used_streams / create_stream_id / report_stream_dropped for SYMBOLIC MAX_STREAMS (inductive loop invariants: the live list is exactly the ascending complement of the vacant ids) + Kani: StreamsManagerBase create / drop from arbitrary Inv_SM states (ids recycle, running count == |live|), Multi channels: a listener created for new events sees nothing sent before",
+ "C10": dict(tech="Verus: StreamsManagerBase::new / sync_vacant_and_used_streams / create_stream_id / report_stream_dropped for SYMBOLIC MAX_STREAMS (inductive loop invariants: the live list is exactly the ascending complement of the vacant ids) + Kani: StreamsManagerBase create / drop from arbitrary Inv_SM states (ids recycle, running count == |live|), Multi channels: a listener created for new events sees nothing sent before",
              text="Proof (all sequential histories by induction over Inv_SM) that at most MAX_STREAMS streams exist, the running-stream count equals the number of live streams, ids are never exhausted below the limit; obligation taken from the statement that a listener created for new events yields nothing sent before its creation (a KNOWN FINDING on the unchanged tree for the four covered Multi channels).",
-             note="crossbeam Multi channel not covered", ref="DESIGN §4 C10"),
- "C11": dict(tech="Verus on the seven item_processor closures lifted mechanically out of stream_executor.rs (macros expanded textually, INSTRUMENTS symbolic) + the six task bodies (limit handed to for_each_concurrent, timeout arm chosen iff futures_timeout != 0); Kani: Instruments predicates over every usize",
+             note="crossbeam Multi channel: bookkeeping shared (StreamsManagerBase), its 'nothing old' obligation not covered", ref="DESIGN §4 C10"),
+ "C11": dict(tech="Verus on the seven item_processor closures lifted mechanically out of stream_executor.rs (macros expanded textually, INSTRUMENTS symbolic) + the six task bodies (limit handed to for_each_concurrent, timeout arm chosen iff futures_timeout != 0); Kani: Instruments predicates over every usize; Verus call-site obligations generated from Uni / Multi: the configured limit (>= 1) reaches the executor as a value in 1..=limit and the timeout unchanged through every wrapper layer",
              text="Proof that every item-processing path records exactly one outcome -- with metrics enabled exactly one of the three counters moves by one, the right one --, invokes the error callback exactly once for a failed item and never otherwise, reaches no panic!, and returns normally for every outcome; that the concurrency limit handed to the stream combinator is the configured one and the timeout variant is chosen iff a timeout is configured.",
              note="futures::StreamExt::for_each(_concurrent) and tokio::time::timeout are ASSUMED contracts; counters under concurrent inc: C19", ref="DESIGN §4 C11"),
- "C12": dict(tech="Verus on the six de-asynced executor task bodies with ghost phase/clock, register_execution_start/finish (with a termination obligation), and the lifted latch_callback_1p closure",
+ "C12": dict(tech="Verus on the six de-asynced executor task bodies with ghost phase/clock, register_execution_start/finish (with a termination obligation), the lifted latch_callback_1p closure, and call-site obligations generated from the four Multi::spawn_*_oldies_executor (the newies executor is spawned inside the oldies' close callback iff sequential_transition; each executor registered under its own stream id)",
              text="Proof that the close callback is invoked exactly once, after for_each returned and after the finish was registered, finding an 'ended' status (programmatically ended only if it had been scheduled to finish) and a finish time not before the start time; that the Uni latch invokes the user callback at exactly the MAX_STREAMS-th call. report_scheduled_to_finish racing the end and out-of-order completion inside for_each_concurrent are NOT decided.",
              note="monotone clock, tokio::spawn, for_each*: assumed", ref="DESIGN §4 C12"),
  "C13": dict(tech="Kani inductive-step harnesses on OgreArrayPoolAllocator with both free-list kinds from an arbitrary permutation / split of the ids and arbitrary free-list origin (incl. the mechanism obligation: the destructor runs before the id is back on the free list) + Verus on both free-list rings (symbolic size)",
              text="Proof (all sequential histories, POOL_SIZE in {2,4,8}, incl. exhaust/refill cycles and free-list counter wrap) that alloc hands out only ids that are not outstanding, fails iff all are outstanding, dealloc makes the id allocatable again, and id<->reference conversion is a bijection onto the pool. FullSync free list: all schedules modulo lock exclusion; atomic free list under concurrency NOT decided.",
              note="as C01", ref="DESIGN §3.2, §4 C13"),
- "C14": dict(tech="Kani harnesses on OgreArc / OgreUnique over the real pool with a drop-counting payload (inductive over the reference count)",
+ "C14": dict(tech="Kani harnesses on OgreArc / OgreUnique over the real pool with a drop-counting payload (inductive over the reference count), incl. one adversarial step: another owner drops its handle right after this thread's decrement (the last-owner decision must come from the own fetch_sub) + Verus: raw copies covered by references counted beforehand",
              text="Proof (sequential) that clone / drop / bulk increment + raw copies / into_ogre_arc keep 'references_count == live handles', that every handle dereferences to the value written at creation, and that the value is destroyed and its slot returned exactly when the last handle is dropped, a unique->shared conversion neither destroying nor duplicating it.",
              note="clone racing the final drop on different threads: RMW atomicity assumed", ref="DESIGN §3.2, §4 C14"),
  "C15": dict(tech="Kani: every ring / pool / zero-copy harness starts from a SYMBOLIC counter origin (all 2^32 values) with overflow checks on + Verus: AtomicMove / FullSyncMove arithmetic for symbolic BUFFER_SIZE and every u32 counter value (arithmetic overflow obligations, lap lemma)",
              text="Proof that none of the ring, pool, zero-copy queue contracts depends on the counter origin: accept/reject answers, delivered values and order, reported lengths are as from origin 0, and no arithmetic overflow panic is reachable from any origin (both build modes: CBMC checks + - * like an overflow-checking build, the functional contracts are stated in wrapping arithmetic).",
              note="as C01", ref="DESIGN §3.1, §4 C15"),
- "C16": dict(tech="Kani: reject branches' frame conditions on rings / zero-copy queues / pool, Uni channels and the ogre_arc Multi channels",
+ "C16": dict(tech="Kani: reject branches' frame conditions on rings / zero-copy queues / pool, Uni channels and the ogre_arc Multi channels, incl. one adversarial step at the capacity boundary (the receding compare-exchange loses against another producer while a consumer frees a slot: the fullness test is repeated on the current head) + Verus: ring_atomic / ring_full_sync reject paths for symbolic BUFFER_SIZE, crossbeam Uni glue",
              text="Proof (sequential) that a rejected send leaves all counters, the buffer, the free list and everything a stream could yield unchanged, hands the input back, runs no unbounded loop (unwinding assertions), and that exactly BUFFER_SIZE events can be outstanding after any history. Producers colliding at the capacity boundary are NOT decided.",
              note="as C01", ref="DESIGN §4 C16"),
- "C18": dict(tech="Verus on push/pop of both stacks for a SYMBOLIC capacity with the lock as a resource invariant (every access to head/buffer asserted under the lock) + Kani on the atomic stack and both non-blocking queues",
+ "C18": dict(tech="Verus on push/pop of both stacks for a SYMBOLIC capacity with the lock as a resource invariant (every access to head/buffer asserted under the lock) + Kani on the atomic stack (incl. 'the environment acts at the instant of the release': pop's answer is fixed inside the critical section) and both non-blocking queues",
              text="Proof that each critical section implements the LIFO operation on whatever well-formed state it finds when it acquires the lock, touches head/buffer only while holding it, restores the invariant and releases on every exit: with 'the lock excludes' (ASSUMED) every execution is the sequential history ordered by lock acquisition, i.e. linearizable. The two non-blocking queues: sequential FIFO contract (inductive step).",
              note="LK3 (mutual exclusion of the swap-based flag / parking_lot RawMutex) + SC assumed; the atomic non-blocking queue under concurrency is not decided; Kani cannot compile parking_lot (ICE) -> that stack is V only", ref="DESIGN §3.4, §4 C18"),
  "C19": dict(tech="Kani function contracts IN PLACE on split_joined / join_split (cfg_attr(kani, kani::ensures), proof_for_contract) reused modularly (stub_verified) for atomic_compute / probe + loop-free harnesses over every 64-bit word / every (u32, f32-bits) pair: split/join inverse, probe reads one word, inc counts exactly one from any count + Verus A-model on atomic_compute (left only through one successful compare-exchange on the value it computed from)",
              text="Proof that split/join are mutually inverse on all 2^64 words (so a reading returns the count and the average of the same update), that one inc from ANY count moves it by exactly one (101 at the documented reset) through one compare-exchange on the current word, and (bounded stand-in on small quarter-integer inputs) that the stored average is the incremental-mean step. 'Average equals the arithmetic mean within tolerance' over long sequences (floating-point error accumulation) and lost-update freedom under real concurrency (CAS retry loop) are NOT decided.",
              note="CBMC float model; concurrency residue", ref="DESIGN §4 C19"),
- "C20": dict(tech="Kani: send_with_async of every Uni / Multi channel polled once with a never-ready setter: state assertion at the suspension point + other operations complete without spinning (unwinding assertion)",
+ "C20": dict(tech="Kani: send_with_async of every Uni / Multi channel polled once with a never-ready setter: state assertion at the suspension point + other operations complete without spinning (unwinding assertion) + the resumed send's event wakes a parked stream; Verus: the crossbeam Uni channel's async send yields instead of busy-spinning when the queue filled up during the suspension",
              text="Proof (state form) that at the .await of send_with_async no queue-wide lock and no unpublished ring reservation is held, and (operational form) that a plain send and a consume issued meanwhile complete in a bounded number of steps and are delivered. KNOWN FINDINGS on the unchanged tree: the two movable Uni channels hold the spin lock / a ring reservation across the await.",
              note="bounded-step completion under real concurrency for spin loops in general is not decided", ref="DESIGN §4 C20"),
 }
